@@ -290,7 +290,12 @@ pub fn eval_mux(c: &MuxCase) -> Outcome {
             expect_fail_reason = "--fragmented is not supported by the CLI";
         }
         14 => {
-            out_arg = dir.join("no_such_dir").join("out.mp4").to_string_lossy().to_string();
+            out_arg = match c.hex_style % 3 {
+                // a device that accepts the open but fails every write (ENOSPC): the failure surfaces only when bytes are written
+                1 if std::path::Path::new("/dev/full").exists() => "/dev/full".to_string(),
+                2 => dir.to_string_lossy().to_string(), // a directory
+                _ => dir.join("no_such_dir").join("out.mp4").to_string_lossy().to_string(),
+            };
             expect_fail_reason = "unwritable output path";
         }
         15 => {
@@ -536,7 +541,8 @@ fn s_mux_invalid(_: Tier) -> BoxedStrategy<MuxCase> {
 #[derive(Clone, Debug, Serialize, Deserialize, PartialEq, Eq, Hash)]
 pub struct ValCase {
     /// per input (video, audio): 0 not given, 1 valid hex, 2 missing file, 3 empty, 4 whitespace only, 5 odd length, 6 non-hex char,
-    /// 7 binary / invalid UTF-8, 8 directory, 9 valid upper-case with mixed ASCII whitespace, 10 single byte "00", 11 '+' sign inside
+    /// 7 binary / invalid UTF-8, 8 directory, 9 valid upper-case with mixed ASCII whitespace, 10 single byte "00", 11 '+' sign inside,
+    /// 12 hex separated by non-ASCII Unicode whitespace (either verdict, but a verdict)
     pub video: u8,
     pub audio: u8,
     pub mode: u8, // 0 text, 1 --json, 2 --output report
@@ -589,6 +595,14 @@ fn write_val_input(dir: &Path, name: &str, kind: u8, len: u8) -> (Option<PathBuf
             let _ = std::fs::write(&p, "00");
             true
         }
+        12 => {
+            // hex digits separated by non-ASCII Unicode whitespace (pasted from a web page / word processor): whether that
+            // counts as "hexadecimal text" is left open (either verdict is accepted), but a verdict there must be
+            let ws = ['\u{a0}', '\u{3000}', '\u{2028}', '\u{85}', '\u{2003}', '\u{202f}'][(len % 6) as usize];
+            let t: String = bytes.iter().map(|b| format!("{:02x}{}", b, ws)).collect();
+            let _ = std::fs::write(&p, t);
+            true
+        }
         _ => {
             let _ = std::fs::write(&p, "+f+f");
             false
@@ -600,8 +614,9 @@ fn write_val_input(dir: &Path, name: &str, kind: u8, len: u8) -> (Option<PathBuf
 pub fn eval_validate(c: &ValCase) -> Outcome {
     let mut o = Outcome::default();
     let dir = case_dir();
-    let (vp, vv) = write_val_input(&dir, "v.hex", c.video % 12, c.len);
-    let (ap, av) = write_val_input(&dir, "a.hex", c.audio % 12, c.len);
+    let (vp, vv) = write_val_input(&dir, "v.hex", c.video % 13, c.len);
+    let (ap, av) = write_val_input(&dir, "a.hex", c.audio % 13, c.len);
+    let either = c.video % 13 == 12 || c.audio % 13 == 12;
     let mut args: Vec<String> = Vec::new();
     if c.mode % 3 == 1 {
         args.push("--json".into());
@@ -644,15 +659,17 @@ pub fn eval_validate(c: &ValCase) -> Outcome {
                     }
                 };
                 match verdict {
-                    Some(v) if v == want => {}
+                    Some(v) if v == want || either => {}
                     Some(v) => o.fail(
                         "verdict",
-                        format!("verdict.got={}.want={}.video{}.audio{}", v, want, c.video % 12, c.audio % 12),
-                        format!("validate says valid={} but inputs are video kind {} / audio kind {} (expected {}); mode {}", v, c.video % 12, c.audio % 12, want, c.mode % 3),
+                        format!("verdict.got={}.want={}.video{}.audio{}", v, want, c.video % 13, c.audio % 13),
+                        format!("validate says valid={} but inputs are video kind {} / audio kind {} (expected {}); mode {}", v, c.video % 13, c.audio % 13, want, c.mode % 3),
                     ),
                     None => {
                         // a crash / error exit is "not valid"; only a problem when the inputs are valid
-                        if want {
+                        if either {
+                            o.fail("verdict", "verdict.none_for_unicode_whitespace", format!("no verdict (crash or abort) for hex text separated by Unicode whitespace: exit {:?} stderr {}", p.code, &p.stderr[..p.stderr.len().min(200)]));
+                        } else if want {
                             o.fail("verdict", "verdict.none_for_valid_inputs", format!("no verdict for valid inputs: exit {:?} stderr {}", p.code, &p.stderr[..p.stderr.len().min(200)]));
                         }
                     }
@@ -660,14 +677,14 @@ pub fn eval_validate(c: &ValCase) -> Outcome {
             }
         }
     }
-    o.nontrivial = c.video % 12 != 0 && c.audio % 12 != 0;
+    o.nontrivial = c.video % 13 != 0 && c.audio % 13 != 0;
     o.class(&format!("mode:{}", c.mode % 3));
     let _ = std::fs::remove_dir_all(&dir);
     o
 }
 
 fn s_validate(_: Tier) -> BoxedStrategy<ValCase> {
-    (0u8..12, 0u8..12, 0u8..3, 1u8..40).prop_map(|(video, audio, mode, len)| ValCase { video, audio, mode, len }).boxed()
+    (0u8..13, 0u8..13, 0u8..3, 1u8..40).prop_map(|(video, audio, mode, len)| ValCase { video, audio, mode, len }).boxed()
 }
 
 // ------------------------------------------------------------------------------------------
